@@ -396,7 +396,10 @@ func explore(rep *kit.Report, cfg config, bound int) {
 	}
 	st := verifrt.Explore(bound, verifrt.Options{MaxSteps: 20000, Invariant: inv, Visit: visit}, body, check, rep.Expired)
 	if st.Capped {
-		rep.Capped("deadline reached inside an exploration")
+		rep.Capped(fmt.Sprintf("deadline reached inside an exploration (preemption bound %d)", bound))
+		rep.AddInt("scenarios_cut_short", 1)
+	} else {
+		rep.AddInt("scenarios_completed", 1)
 	}
 	if os.Getenv("VERIF_DEBUG") != "" {
 		fmt.Fprintf(os.Stderr, "DEBUG execs=%d depth=%d bound=%d N=%d %s\n", st.Executions, st.MaxDepth, bound, cfg.N, strings.ReplaceAll(cfg.block(), "\n", ";"))
@@ -497,12 +500,61 @@ func main() {
 		rep.Assume("third-party/net/http code and the fake transports are atomic between scheduling points; plain (unsynchronised) accesses are covered by the separate free-running -race pass")
 		rep.Assume("client cancellation is modelled as the transport returning context.Canceled; the response writer is not a CloseNotifier/Flusher so proxy starts no channel-based helper goroutines")
 		rep.RunWorkers(16)
+		if rep.Thorough() {
+			highest := -1
+			for L := 0; L <= 3; L++ {
+				if n, _ := rep.Extra[fmt.Sprintf("shards_that_completed_bound_%d", L)].(int64); n == 16 {
+					highest = L
+				}
+			}
+			rep.Set("highest_preemption_bound_completed_for_every_configuration", highest)
+		}
 		rep.Set("traces_validated_against_impl", rep.Evals())
 		rep.Set("trace_validation", "every explored execution is an execution of the instrumented implementation itself")
 		racePass(rep)
 		rep.Finish()
 	}
 	runtime.GOMAXPROCS(1)
+	if rep.Thorough() {
+		// iterative context bounding: every configuration with at most L preemptions, for L = 0, 1, 2, 3; a level that
+		// was completed for all configurations before the deadline is recorded (a level subsumes the ones below it)
+		for L := 0; L <= 3; L++ {
+			item := 0
+			for _, N := range []int{2, 3} {
+				for _, be := range []int{1, 2} {
+					for _, mc := range []int{0, 1, 2} {
+						for _, mf := range []int{1, 2} {
+							for _, ft := range []string{"0s", "10s"} {
+								for _, td := range []string{"0s", "50ms"} {
+									for _, pol := range []string{"first", "round_robin", "least_conn"} {
+										if (be == 1 && pol != "first") || (mf == 2 && ft == "0s") {
+											continue
+										}
+										item++
+										if !rep.Mine(item) {
+											continue
+										}
+										if rep.Expired() {
+											rep.Capped(fmt.Sprintf("deadline reached at preemption bound %d", L))
+											rep.Finish()
+										}
+										explore(rep, config{be, mc, mf, ft, td, pol, N, []int{outOK, outErr, outCancel, outPanic}, false}, L)
+										if N == 2 && mc == 0 && ft != "0s" && pol == "first" {
+											explore(rep, config{be, mc, mf, ft, td, pol, N, []int{outOK, outErr}, true}, L)
+										}
+									}
+								}
+							}
+						}
+					}
+				}
+			}
+			if !rep.Expired() {
+				rep.AddInt(fmt.Sprintf("shards_that_completed_bound_%d", L), 1)
+			}
+		}
+		rep.Finish()
+	}
 	item := 0
 	for _, N := range []int{2, 3} {
 		for _, be := range []int{1, 2} {
